@@ -91,7 +91,14 @@ func (b *footnoteBlockParser) Close(node gast.Node, reader text.Reader, pc parse
 	} else {
 		list = ast.NewFootnoteList()
 		pc.Set(footnoteListKey, list)
-		node.Parent().InsertBefore(node.Parent(), node, list)
+		// the list must not be placed inside a footnote that will itself be moved into the list
+		anchor := node
+		for p := node.Parent(); p != nil; p = p.Parent() {
+			if p.Kind() == ast.KindFootnote {
+				anchor = p
+			}
+		}
+		anchor.Parent().InsertBefore(anchor.Parent(), anchor, list)
 	}
 	node.Parent().RemoveChild(node.Parent(), node)
 	list.AppendChild(list, node)
